@@ -23,7 +23,6 @@ func vNewTwin(suffix string, disableGC bool) *vTwin {
 	} else {
 		t.a, t.b = vReplica("actA"+suffix), vReplica("actB"+suffix)
 	}
-	zzvsym.DistinctActors("actA"+suffix, "actB"+suffix)
 	return t
 }
 
@@ -31,11 +30,9 @@ func vNewTwin(suffix string, disableGC bool) *vTwin {
 // content as the same history without it, and no sync fails -- in particular
 // when a client holds an unsent change while its peer syncs repeatedly.
 func VerifR4GCTwin() {
-	g := vNewTwin("", false)  // GC on
-	n := vNewTwin("N", true)  // GC off (document.WithDisableGC, no response vector)
-	// both universes use the same actor ids and skews
-	zzvsym.Assume(g.a.ActorID() == n.a.ActorID())
-	zzvsym.Assume(g.b.ActorID() == n.b.ActorID())
+	g := vNewTwin("", false) // GC on
+	n := vNewTwin("N", true) // GC off (document.WithDisableGC, no response vector)
+	// (the universes never exchange changes; their actor ids are independent)
 	typ := zzvsym.IntRange("type", 0, vNumTypes-1)
 	vSmallAlphabet = true
 	for _, t := range []*vTwin{g, n} {
